@@ -2,6 +2,7 @@
 import contextlib
 import io
 import os
+import shutil
 from collections import Counter
 
 import common
@@ -232,6 +233,17 @@ def run(ctx):
             bad = [k for k in set(trees[0]) | set(trees[1]) if trees[0].get(k) != trees[1].get(k)]
             viol.append({'property': 'C06', 'kind': 'training-not-deterministic', 'files': bad[:5], 'witness': {'passwords': pws}})
     cases += det_runs
+    # 4. the command line itself: the coverage as typed (also 0, which argparse parses to a falsy value) must be the coverage of the
+    #    saved grammar; option not given = the documented default 0.6
+    cli_cov = 0
+    for covtxt in (['0', '1', None] if ctx.quick else ['0', '0.0', '1', '1.0', '0.25', '0.5', None]):
+        vs = cli_coverage_case(rng, covtxt, dist)
+        if vs is None:
+            continue
+        cli_cov += 1
+        viol += vs
+    cases += cli_cov
+    dist['cli_coverage_runs'] = cli_cov
     if ctx.driver_ok:
         out = common.run_driver(ops)
         for i, (a, b) in enumerate(zip(out, exp)):
@@ -256,8 +268,34 @@ def run(ctx):
             'extra': dict({'protocol_ops': len(ops), 'determinism_runs': det_runs}, **fp_info)}
 
 
+def cli_coverage_case(rng, covtxt, dist, pws=None):
+    """trainer.py run as a program with `--coverage <covtxt>` (None: option absent); the ruleset it saves against check_trained"""
+    snap = common.snapshot()
+    root = common.scratch_dir('c06')
+    if pws is None:
+        pws = gen_passwords.gen_list(rng, n=rng.randint(10, 18), allow_ew=True)
+    tf = os.path.join(root, 'clicov.txt')
+    with open(tf, 'wb') as f:
+        f.write(('\n'.join(pws) + '\n').encode('utf-8'))
+    name = 'clicov_' + (covtxt or 'default').replace('.', '_')
+    rd = os.path.join(snap, 'Rules', name)
+    if os.path.exists(rd):
+        shutil.rmtree(rd)
+    args = ['-r', name, '-t', tf, '-e', 'utf-8', '-n', '3'] + (['-c', covtxt] if covtxt is not None else [])
+    out, err, rc = common.run_cli('trainer.py', args, stdin='devnull', timeout=300)
+    if not os.path.exists(os.path.join(rd, 'Grammar', 'grammar.txt')):
+        return None
+    cov = float(covtxt) if covtxt is not None else 0.6
+    wit = {'passwords': pws, 'coverage': cov, 'cli_coverage': covtxt if covtxt is not None else 'absent'}
+    vs = check_trained(rd, tf, 'utf-8', cov, wit, dist)[0]
+    shutil.rmtree(rd, ignore_errors=True)
+    return vs
+
+
 def replay(ctx, payload):
     w = payload.get('violation', {}).get('witness') or {}
+    if 'cli_coverage' in w:
+        return cli_coverage_case(ctx.rng, None if w['cli_coverage'] == 'absent' else w['cli_coverage'], {}, pws=w['passwords']) or []
     if 'counter' in w:
         got = real_calc(w['counter'])
         want = expected_file(w['counter'])
